@@ -18,6 +18,23 @@
 //!
 //! Deviations from DESIGN.md: directly constructed operators the SQL planner never emits (symmetric hash join
 //! over unbounded inputs, range partitioning) are not built yet; `unnest` is outside the refsql grammar.
+//!
+//! # Recorded findings (message-shape rules in ../signatures.json; regression cases under /verif/regressions/C36/c36/)
+//! `generate-series-exec-loses-projection-and-ordering` (LazyMemoryExec decoded without projection / ordering: run-time
+//! failure with an empty projection, otherwise ordering-derived text and properties differ; the rule hides every
+//! plan with a generate_series scan whose round trip differs in ordering), `parquet-source-reorder-options-dropped`,
+//! `union-exec-decode-readds-coercion-projection`, `projection-literal-nullability-recomputed`.
+//!
+//! # Sensitivity probes (mutrun, /verif/probes/vf-serde/m5-physical-probes.diff, quick tier, seed 0)
+//! * `SortExecNode.fetch` always -1 → DETECTED: "decoded plan differs in its textual form: `SortExec: TopK(fetch=N), ..`
+//!   => `SortExec: expr=..`" (≈ 60 plans).
+//! * HashJoinExec `PartitionMode::Partitioned` encoded as CollectLeft → DETECTED: "`HashJoinExec: mode=Partitioned ..`
+//!   => `HashJoinExec: mode=CollectLeft ..`" (≈ 10 plans).
+//! * (m1) physical aggregate `distinct` always false and window `partition_by` emptied in datafusion-proto's
+//!   to_proto → NOT detected at quick tier: the optimizer rewrites single DISTINCT aggregates into two-level
+//!   group-bys before physical planning and window execution partitions by the exec node's `partition_keys`, so
+//!   neither field is observable for the generated plans (kept as a note: multi-DISTINCT aggregates are rare in
+//!   the grammar).
 use crate::c35::Wire;
 use crate::common::*;
 use datafusion::physical_plan::{ExecutionPlan, ExecutionPlanProperties, displayable};
